@@ -115,7 +115,7 @@ CLAIMED = {
         "category": "other",
         "design_ref": "DESIGN.md section 6, C15",
         "technique": "Kani bounded harnesses (concrete lengths, all bytes symbolic) on the real glob_match::{analyze_glob_pattern, unescape_pattern}, SectionRule::{new, matches}, SectionNameMatcher::prefix_bytes and section_name_prefix_hash against fnmatch restricted to metacharacter-free patterns; and on the real SectionRules::from_rules + lookup for pairs of Exact/Prefix rules, with hashbrown's three entry points replaced by contract stubs and hash_bytes by an uninterpreted function",
-        "text": "WILD'S OWN PATTERN CODE AND FIRST-MATCH-WINS FOR EXACT/PREFIX RULES, BOUNDED - wildcard matching itself (glob crate), file-name patterns and KEEP are not decided. For every pattern of 4 or 5 bytes and every name of 4 bytes (2- and 5-byte variants in the thorough tier) CBMC proves: a pattern is treated as a glob exactly when it has an unescaped * ? [ ]; unescaping removes exactly the escaping backslashes; a pattern without unescaped metacharacters becomes an exact rule that matches precisely the names fnmatch matches, keyed by its unescaped text; a rule with at least four literal bytes has a hash key and every name it matches probes that key. For every pair of Exact/Prefix rules of 4 and 5 symbolic bytes and every name of 5 or 6 bytes, the real from_rules followed by the real lookup returns the outcome of the first rule in script order that matches (else the no-rule outcome), for EVERY hash function - under the assumed hashbrown contract that find returns the earliest-inserted matching entry filed under the probed hash. One known finding (patterns with fewer than 4 literal leading bytes panic or never match) is listed in known_findings.json and reported as KNOWN-FINDING.",
+        "text": "WILD'S OWN PATTERN CODE AND FIRST-MATCH-WINS FOR EXACT/PREFIX RULES, BOUNDED - wildcard matching itself (glob crate), file-name patterns and KEEP are not decided. For every pattern of 4 or 5 bytes and every name of 4 bytes (2- and 5-byte variants in the thorough tier) CBMC proves: a pattern is treated as a glob exactly when it has an unescaped * ? [ ]; unescaping removes exactly the escaping backslashes; a pattern without unescaped metacharacters becomes an exact rule that matches precisely the names fnmatch matches, keyed by its unescaped text; a rule with at least four literal bytes has a hash key and every name it matches probes that key (rules and names are hashed by exactly their first four bytes). For every pair of Exact/Prefix rules of 4 and 5 symbolic bytes and every name of 5 or 6 bytes, the real from_rules followed by the real lookup returns the outcome of the first rule in script order that matches (else the no-rule outcome), for EVERY hash function - under the assumed hashbrown contract that find returns the earliest-inserted matching entry filed under the probed hash. One known finding (patterns with fewer than 4 literal leading bytes panic or never match) is listed in known_findings.json and reported as KNOWN-FINDING.",
         "note": "Assumed: glob::Pattern implements fnmatch (did not finish under CBMC); hashbrown's insertion-order behaviour for equal hashes (not documented API; wild relies on it). memchr's CPU feature probe stubbed (portable path). Rules with glob matchers or file patterns are outside the first-match obligation.",
     },
     "C22": {
